@@ -503,6 +503,8 @@ def play(case, bindir, root):
                 rec['res_out'] = 'untouched'
             elif call['res'] == 'missing':
                 rec['res_out'] = 'removed'
+            elif read(f'c19_log/res_{k}') is None:     # it was started without the <name>.ins it derives the result from
+                rec['res_out'] = 'untouched'
             else:
                 rec['res_out'] = dict(wrote=labels.label(read(f'c19_log/res_{k}'), 'g'))
             steps.append(rec)
